@@ -1222,7 +1222,53 @@ pub(crate) fn analyze<V: Val, S: StratExt<V>>(
             filtered = threads.iter().map(|th| th.iter().filter(|o| !d5.contains(&(o.t, o.inv))).cloned().collect()).collect();
             &filtered
         };
-        match lin::check_open(threads, init_ids[c], f, &addr_of, 400_000) {
+        let mut verdict = lin::check_open(threads, init_ids[c], f, &addr_of, 400_000);
+        if let Verdict::Violation(_) = verdict {
+            // Second look for the known mechanism D5 when values are stored in several containers
+            // (so "never stored here" does not apply): a read on the prepaid path (its own or its
+            // helper's) that returned value V while a writer of ANOTHER container, which held V, was
+            // active in the same window. If the history without those reads is linearizable, they
+            // are reported as D5 instead.
+            let mut cands: Vec<(u8, u64)> = Vec::new();
+            let mut cand_ops: Vec<Op> = Vec::new();
+            for o in threads.iter().flatten() {
+                let reads = o.kind == Kind::Load || (o.kind == Kind::Cas && o.ret_addr != o.cur_addr);
+                if !reads || o.ret == 0 || o.ret == lin::ANY {
+                    continue;
+                }
+                let prepaid_self = o.path & lin::PATH_PREPAID != 0;
+                let prepaid_helper = o.path & lin::PATH_FB_HELPED != 0
+                    && writes.iter().any(|w| w.t != o.t && w.path & lin::PATH_PREPAID != 0 && o.inv < w.resp && w.inv < o.resp);
+                if !(prepaid_self || prepaid_helper) {
+                    continue;
+                }
+                let foreign = (0..nc).filter(|c2| *c2 != c).any(|c2| {
+                    let held = init_ids[c2] == o.ret || per_cont[c2].iter().flatten().any(|w| w.kind != Kind::Load && w.a == o.ret);
+                    held && per_cont[c2].iter().flatten().any(|w| w.kind != Kind::Load && w.inv < o.resp && o.inv < w.resp)
+                });
+                if foreign {
+                    cands.push((o.t, o.inv));
+                    cand_ops.push(*o);
+                }
+            }
+            if !cands.is_empty() {
+                let without: Vec<Vec<Op>> = threads.iter().map(|th| th.iter().filter(|o| !cands.contains(&(o.t, o.inv))).cloned().collect()).collect();
+                if let Verdict::Ok = lin::check_open(&without, init_ids[c], f, &addr_of, 400_000) {
+                    for o in cand_ops {
+                        report(
+                            "C12",
+                            "prepaid-stale-debt-foreign-value",
+                            format!(
+                                "[{}] took the prepaid branch of the fast path and returned value {:x}, which was never stored in container {} but lives at address {:#x} where an earlier value of this container used to live (address reuse): a writer of another container paid the reader's stale debt [second look: the value was also stored in this container at another time, and in another container whose writer was active during this load; without this read the history is linearizable]",
+                                o.brief(), o.ret, c, o.ret_addr
+                            ),
+                        );
+                    }
+                    verdict = Verdict::Ok;
+                }
+            }
+        }
+        match verdict {
             Verdict::Ok => runner::count("histories.linearizable", 1),
             Verdict::Violation(msg) => {
                 let cas = all.iter().any(|o| o.kind == Kind::Cas);
